@@ -317,6 +317,13 @@ def run_case(case):
         return dict(base, verdict="inconclusive", why="type pool exhausted for the twin", monitors=mon)
     res = sem.run_twin_case(case, prog, {}, twin, {}, label_a="implicit", label_b="renamed explicit",
                             reference=not case.get("memory"))
+    if res.get("verdict") == "violated" and (res.get("witness") or {}).get("oracle") == "reference":
+        # implicit and renamed builds agree with each other and deviate identically from the reference: not a matter
+        # of which signals the compiler chose (C01 / C02 decide such programs); finish the twin comparison alone
+        note = "both builds deviate identically from the reference semantics: %s" % res.get("why", "")[:200]
+        res = sem.run_twin_case(case, prog, {}, twin, {}, label_a="implicit", label_b="renamed explicit", reference=False)
+        if res.get("verdict") == "held":
+            res["common_deviation"] = note
     res.setdefault("monitors", {})
     res["monitors"].update(mon)
     if res.get("verdict") == "held":
